@@ -180,7 +180,9 @@ impl SmartCalc {
             !is_small_date
         });
         
-        current_rules.push(RuleType::Internal {
+        /* Dates are recognised before the other rules look at the line, so that a rule which needs a date
+           (at_date, to_unixtime, ...) finds it in the same pass ('1 jan 2000 at 10:30 as unix') */
+        current_rules.insert(0, RuleType::Internal {
             function_name: "small_date".to_string(),
             function: small_date as ExpressionFunc,
             tokens_list: function_items
